@@ -418,3 +418,554 @@ Proof.
     + destruct (le_fr_nth m af2 o a Le E) as (y & Y1 & Y2). rewrite Y1 in O. eapply le_obj_ok; eauto.
     + apply nth_error_None in E. apply nth_error_lt in H. lia.
 Qed.
+
+(* ------------------------------------------------ soundness of the checker *)
+Definition post (base : nat) (af' : list aobj) (fr : list nat) (st : mstate) (r : xres) : Prop :=
+  match r with
+  | (fr', st', _, h) =>
+    trans base fr st st' /\
+    (exists news, fr' = fr ++ news /\ Forall (fun n => length (impls st) <= n) news) /\
+    (h = false -> sat base af' fr' st')
+  end.
+
+Lemma post_seq : forall base af1 af' fr st fr1 st1 ch1 r,
+  post base af1 fr st (fr1, st1, ch1, false) -> post base af' fr1 st1 r -> post base af' fr st r.
+Proof.
+  intros base af1 af' fr st fr1 st1 ch1 [[[fr' st'] ch'] h] (T1 & (n1 & E1 & F1) & _) (T2 & (n2 & E2 & F2) & S2).
+  simpl. split; [|split; auto].
+  - eapply trans_trans; eauto. intros x Hx. subst fr1. apply in_app_or in Hx. destruct Hx; auto.
+    right. rewrite Forall_forall in F1. auto.
+  - exists (n1 ++ n2). split; [subst; rewrite app_assoc; auto|]. apply Forall_app. split; auto.
+    eapply Forall_impl; [|exact F2]. intros a Ha. destruct T1 as (_ & L & _). simpl in *. lia.
+Qed.
+
+Lemma continue_post : forall base (k : list nat -> mstate -> list data -> option xres) af1 af' fr st r0 r,
+  (forall fr1 st1 ch1 r, sat base af1 fr1 st1 -> wf st1 -> base <= length (impls st1) ->
+                         k fr1 st1 ch1 = Some r -> post base af' fr1 st1 r) ->
+  base <= length (impls st) ->
+  post base af1 fr st r0 ->
+  continue_with k (Some r0) = Some r -> post base af' fr st r.
+Proof.
+  intros base k af1 af' fr st [[[fr1 st1] ch1] h1] r K B P C. simpl in C. destruct h1.
+  - inversion C; subst. destruct P as (T & N & _). simpl. split; auto. split; auto. discriminate.
+  - eapply post_seq; [exact P|]. destruct P as (T & N & S). eapply K; eauto. apply T. destruct T as (_ & L & _). lia.
+Qed.
+
+Lemma obj_ok_mono : forall base st st' i a,
+  (forall k, uniq st i k -> uniq st' i k) -> obj_ok base st i a -> obj_ok base st' i a.
+Proof. intros base st st' i [[|u]|] H O; simpl in *; auto. destruct O; split; auto. Qed.
+
+Lemma touched_clear : forall base af fr st s i a,
+  sat base af fr st -> nth_error fr s = Some i -> nth_error af s = Some a ->
+  forall o st', nth_error fr o = Some i -> obj_ok base st' i (nth_error (set_nth af s (clear_obj a)) o).
+Proof.
+  intros base af fr st s i a (L & B & D & O) Fs As o st' Fo.
+  assert (Hs : s < length af) by (eapply nth_error_lt; eauto).
+  pose proof (O s i Fs) as Os. rewrite As in Os.
+  destruct (Nat.eq_dec s o) as [<-|N].
+  - rewrite nth_error_set_nth_eq by auto. destruct a; simpl in *; auto. destruct Os; split; auto. intros; discriminate.
+  - rewrite nth_error_set_nth_neq by auto. pose proof (O o i Fo) as Oo.
+    destruct (nth_error af o) as [[|u]|]; simpl in *; auto. destruct Oo as [Hb _].
+    exfalso. apply N. eapply D; eauto.
+Qed.
+
+Lemma touched_owned : forall base af fr st o i v,
+  sat base af fr st -> nth_error fr o = Some i -> base <= i ->
+  forall o', nth_error fr o' = Some i -> nth_error (set_nth af o v) o' = Some v.
+Proof.
+  intros base af fr st o i v (L & B & D & O) Fo Hb o' Fo'.
+  assert (o' = o) by (eapply D; eauto). subst.
+  apply nth_error_set_nth_eq. rewrite L. eapply nth_error_lt; eauto.
+Qed.
+
+Lemma owned_base : forall base af fr st o i u,
+  sat base af fr st -> nth_error fr o = Some i -> nth_error af o = Some (AOwned u) ->
+  base <= i /\ i < length (impls st) /\ forall k, k < NB -> u k = true -> uniq st i k.
+Proof.
+  intros base af fr st o i u (L & B & D & O) Fo Ao. specialize (O o i Fo). rewrite Ao in O. simpl in O.
+  destruct O as [O1 O2]. split; [auto|]. split; [eapply B; eauto|exact O2].
+Qed.
+
+Lemma all_some_map_nth : forall A (f : nat -> option A) args r, all_some (map f args) = Some r ->
+  length r = length args /\
+  forall p x, nth_error r p = Some x -> exists o, nth_error args p = Some o /\ f o = Some x.
+Proof.
+  intros A f args r H. destruct (all_some_nth _ _ _ H) as [L N]. rewrite map_length in L. split; auto.
+  intros p x Hx. specialize (N p). rewrite Hx in N. simpl in N. rewrite nth_error_map in N.
+  destruct (nth_error args p) as [o|]; simpl in N; [|discriminate]. exists o. split; auto. congruence.
+Qed.
+
+Lemma all_some_map_nth2 : forall A (f : nat -> option A) args r, all_some (map f args) = Some r ->
+  forall p o, nth_error args p = Some o -> exists x, nth_error r p = Some x /\ f o = Some x.
+Proof.
+  intros A f args r H p o Hp. destruct (all_some_nth _ _ _ H) as [L N]. specialize (N p).
+  rewrite nth_error_map, Hp in N. simpl in N. destruct (nth_error r p) as [x|]; simpl in N; [|discriminate].
+  exists x. split; auto. congruence.
+Qed.
+
+Lemma pos_Some : forall o l p, pos o l = Some p -> nth_error l p = Some o.
+Proof.
+  induction l as [|x l IH]; simpl; intros p H; [discriminate|].
+  destruct (x =? o) eqn:E. { inversion H; subst. apply Nat.eqb_eq in E. subst; auto. }
+  destruct (pos o l); [|discriminate]. inversion H; subst. simpl. auto.
+Qed.
+
+Lemma pos_None : forall o l, pos o l = None -> ~ In o l.
+Proof.
+  induction l as [|x l IH]; simpl; intros H; [tauto|].
+  destruct (x =? o) eqn:E; [discriminate|]. destruct (pos o l); [discriminate|].
+  apply Nat.eqb_neq in E. intros [X|X]; auto. apply IH; auto.
+Qed.
+
+Lemma nodupb_NoDup : forall l, nodupb l = true -> NoDup l.
+Proof.
+  induction l as [|x l IH]; simpl; intros H; [constructor|]. apply andb_true_iff in H. destruct H as [H1 H2].
+  constructor; auto. intro I. apply negb_true_iff in H1.
+  assert (existsb (Nat.eqb x) l = true) by (apply existsb_exists; exists x; split; auto; apply Nat.eqb_refl). congruence.
+Qed.
+
+Lemma combine_seq_nth : forall A (af : list A) s o,
+  nth_error (combine (seq s (length af)) af) o = option_map (fun a => (s + o, a)) (nth_error af o).
+Proof.
+  induction af as [|y af IH]; intros s o; simpl; [destruct o; reflexivity|].
+  destruct o; simpl. - rewrite Nat.add_0_r. reflexivity.
+  - rewrite IH. replace (S s + o) with (s + S o) by lia. reflexivity.
+Qed.
+
+Lemma wb_nth : forall args vals af o,
+  nth_error (write_back args vals af) o =
+  match nth_error af o with
+  | None => None
+  | Some a => Some (match pos o args with
+                    | Some p => match nth_error vals p with Some a' => a' | None => a end
+                    | None => a end)
+  end.
+Proof.
+  intros. unfold write_back. rewrite nth_error_map, combine_seq_nth.
+  destruct (nth_error af o); reflexivity.
+Qed.
+
+Lemma iter_sound : forall base m af2 fr (run : mstate -> list data -> option xres),
+  le_fr m af2 = true -> length m = length fr ->
+  (forall st ch r, sat base m fr st -> wf st -> base <= length (impls st) ->
+                   run st ch = Some r -> post base af2 fr st r) ->
+  forall n st ch r, sat base m fr st -> wf st -> base <= length (impls st) ->
+    iter_block run fr n st ch = Some r -> post base m fr st r.
+Proof.
+  intros base m af2 fr run Le Lm BI. induction n as [|n IHn]; intros st ch r S W B E; simpl in E.
+  - inversion E; subst. simpl. split; [apply trans_refl; auto|]. split; auto. exists []. rewrite app_nil_r; auto.
+  - destruct (run st ch) as [[[[frx st1] ch1] h1]|] eqn:R; [|discriminate].
+    pose proof (BI st ch _ S W B R) as (T & (news & EN & FN) & SS).
+    destruct h1.
+    + inversion E; subst. simpl. split; auto. split; [exists []; rewrite app_nil_r; auto|discriminate].
+    + assert (S1 : sat base m fr st1). { eapply sat_restrict_weaken; eauto. rewrite <- EN. auto. }
+      assert (P1 : post base m fr st (fr, st1, ch1, false)).
+      { simpl. split; auto. split; auto. exists []. rewrite app_nil_r; auto. }
+      eapply post_seq; [exact P1|]. apply (IHn st1 ch1); auto. apply T. destruct T as (_ & L & _). lia.
+Qed.
+
+Lemma exec_sound : forall tbl base fe fc es af af' fr st ch r,
+  check fc tbl es af = Some af' -> sat base af fr st -> wf st -> base <= length (impls st) ->
+  exec fe tbl es fr st ch = Some r -> post base af' fr st r.
+Proof.
+  intros tbl base. induction fe as [|fe IH]; intros fc es af af' fr st ch r C S W B E; [discriminate|].
+  destruct fc as [|fc]; [discriminate|].
+  destruct es as [|e rest].
+  { simpl in C, E. inversion C; inversion E; subst. simpl. split; [apply trans_refl; auto|]. split; auto.
+    exists []. rewrite app_nil_r; auto. }
+  assert (K : forall af1, check fc tbl rest af1 = Some af' -> forall fr1 st1 ch1 r,
+             sat base af1 fr1 st1 -> wf st1 -> base <= length (impls st1) ->
+             exec fe tbl rest fr1 st1 ch1 = Some r -> post base af' fr1 st1 r).
+  { intros; eapply IH; eauto. }
+  assert (HALT : post base af' fr st (fr, st, @nil data, true)).
+  { simpl. split; [apply trans_refl; auto|]. split; [exists []; rewrite app_nil_r; auto|discriminate]. }
+  pose proof S as (SL & SB & SD & SO).
+  assert (INFR : forall o i, nth_error fr o = Some i -> In i fr) by (intros; eapply nth_error_In; eauto).
+  destruct e; cbn [check exec] in C, E.
+  - (* ENewFresh *)
+    eapply continue_post; [apply (K _ C)|auto| |exact E].
+    destruct (new_fresh_spec base st W) as (T & L & U).
+    simpl. split; [eapply trans_weaken; [exact T|intros x []]|].
+    split; [exists [length (impls st)]; split; auto|]. intros _.
+    apply sat_extend; auto.
+    + eapply sat_step with (T := []); eauto; intros ? ? _ [].
+  - (* ENewCopy *)
+    destruct (nth_error af src) as [a|] eqn:As; [|discriminate].
+    destruct (nth_error fr src) as [i|] eqn:Fs; [|discriminate].
+    assert (Hi := SB _ _ Fs).
+    eapply continue_post; [apply (K _ C)|auto| |exact E].
+    destruct (new_copy_spec base st i W Hi) as (T & L).
+    simpl. split; [eapply trans_weaken; [exact T|intros x [<-|[]]; eauto]|].
+    split; [exists [length (impls st)]; split; auto|]. intros _.
+    apply sat_extend; auto.
+    + eapply sat_step with (T := [i]); eauto.
+      * apply length_set_nth.
+      * intros o i0 Fo Hn. apply nth_error_set_nth_neq. intro; subst. rewrite Fs in Fo. inversion Fo; subst. simpl in Hn; tauto.
+      * intros o i0 Fo [<-|[]]. eapply touched_clear; eauto.
+    + intros; discriminate.
+  - (* EMakeUnique *)
+    destruct (nth_error af o) as [[|u]|] eqn:Ao; try discriminate.
+    destruct (nth_error fr o) as [i|] eqn:Fo; [|discriminate].
+    destruct (owned_base _ _ _ _ _ _ _ S Fo Ao) as (Hb & Hi & _).
+    eapply continue_post; [apply (K _ C)|auto| |exact E].
+    destruct (make_unique_spec base st i W Hi Hb) as (T & L & U & _).
+    simpl. split; [eapply trans_weaken; [exact T|intros x [<-|[]]; eauto]|].
+    split; [exists []; rewrite app_nil_r; auto|]. intros _.
+    eapply sat_step with (T := [i]); eauto.
+    + apply length_set_nth.
+    + intros o' i0 Fo' Hn. apply nth_error_set_nth_neq. intro; subst. rewrite Fo in Fo'. inversion Fo'; subst. simpl in Hn; tauto.
+    + intros o' i0 Fo' [<-|[]]. erewrite touched_owned; eauto. simpl. split; auto.
+  - (* EWrite *)
+    destruct (nth_error af o) as [[|u]|] eqn:Ao; try discriminate.
+    destruct ((k <? NB) && u k) eqn:Ck; [|discriminate]. apply andb_true_iff in Ck. destruct Ck as [Ck Uk].
+    destruct (nth_error fr o) as [i|] eqn:Fo; [|discriminate]. rewrite Ck in E.
+    destruct (owned_base _ _ _ _ _ _ _ S Fo Ao) as (Hb & Hi & UU).
+    destruct ch as [|d ch1]. { inversion E; subst. exact HALT. }
+    eapply continue_post; [apply (K _ C)|auto| |exact E].
+    apply Nat.ltb_lt in Ck.
+    pose proof (write_buf_spec base st i k d W Hi Hb (UU k Ck Uk)) as T.
+    simpl. split; [eapply trans_weaken; [exact T|intros x []]|].
+    split; [exists []; rewrite app_nil_r; auto|]. intros _.
+    eapply sat_step with (T := []); eauto; intros ? ? _ [].
+  - (* EWritePlain *)
+    destruct (nth_error af o) as [[|u]|] eqn:Ao; try discriminate.
+    destruct (nth_error fr o) as [i|] eqn:Fo; [|discriminate].
+    destruct (owned_base _ _ _ _ _ _ _ S Fo Ao) as (Hb & Hi & UU).
+    destruct ch as [|d ch1]. { inversion E; subst. exact HALT. }
+    eapply continue_post; [apply (K _ C)|auto| |exact E].
+    destruct (write_plain_spec base st i d W Hi Hb) as (T & UP & L).
+    simpl. split; [eapply trans_weaken; [exact T|intros x [<-|[]]; eauto]|].
+    split; [exists []; rewrite app_nil_r; auto|]. intros _.
+    eapply sat_step with (T := [i]); eauto.
+    intros o' i0 Fo' [<-|[]]. eapply obj_ok_mono; [|apply SO; auto]. intros; apply UP; auto.
+  - (* EAssignFresh *)
+    destruct (nth_error af o) as [[|u]|] eqn:Ao; try discriminate.
+    destruct (nth_error fr o) as [i|] eqn:Fo; [|discriminate].
+    destruct (owned_base _ _ _ _ _ _ _ S Fo Ao) as (Hb & Hi & UU).
+    destruct ch as [|d ch1]. { inversion E; subst. exact HALT. }
+    eapply continue_post; [apply (K _ C)|auto| |exact E].
+    destruct (assign_fresh_spec base st i d W Hi Hb) as (T & U & L).
+    simpl. split; [eapply trans_weaken; [exact T|intros x [<-|[]]; eauto]|].
+    split; [exists []; rewrite app_nil_r; auto|]. intros _.
+    eapply sat_step with (T := [i]); eauto.
+    + apply length_set_nth.
+    + intros o' i0 Fo' Hn. apply nth_error_set_nth_neq. intro; subst. rewrite Fo in Fo'. inversion Fo'; subst. simpl in Hn; tauto.
+    + intros o' i0 Fo' [<-|[]]. erewrite touched_owned; eauto. simpl. split; auto.
+  - (* EAssignShare *)
+    destruct (nth_error af o) as [[|u]|] eqn:Ao; try discriminate.
+    destruct (nth_error af src) as [a|] eqn:As; [|discriminate].
+    destruct (o =? src) eqn:Eos; [discriminate|]. apply Nat.eqb_neq in Eos.
+    destruct (nth_error fr o) as [i|] eqn:Fo; [|discriminate].
+    destruct (nth_error fr src) as [j|] eqn:Fs; [|discriminate].
+    destruct (owned_base _ _ _ _ _ _ _ S Fo Ao) as (Hb & Hi & UU).
+    assert (Hj := SB _ _ Fs).
+    eapply continue_post; [apply (K _ C)|auto| |exact E].
+    destruct (assign_share_spec base st i j W Hi Hj Hb) as (T & L).
+    simpl. split; [eapply trans_weaken; [exact T|intros x [<-|[<-|[]]]; eauto]|].
+    split; [exists []; rewrite app_nil_r; auto|]. intros _.
+    eapply sat_step with (T := [i; j]); eauto.
+    + rewrite !length_set_nth; auto.
+    + intros o' i0 Fo' Hn. rewrite !nth_error_set_nth_neq; auto.
+      * intro; subst. rewrite Fs in Fo'. inversion Fo'; subst. simpl in Hn; tauto.
+      * intro; subst. rewrite Fo in Fo'. inversion Fo'; subst. simpl in Hn; tauto.
+    + intros o' i0 Fo' Hin.
+      destruct (Nat.eq_dec o o') as [<-|N].
+      * rewrite nth_error_set_nth_eq. 2:{ rewrite length_set_nth, SL. eapply nth_error_lt; eauto. }
+        rewrite Fo in Fo'. inversion Fo'; subst. simpl. split; auto. intros; discriminate.
+      * rewrite nth_error_set_nth_neq by auto.
+        assert (i0 = j).
+        { destruct Hin as [<-|[<-|[]]]; auto. exfalso. apply N. eapply SD; eauto. }
+        subst. eapply touched_clear; eauto.
+  - (* EMoveOut *)
+    destruct (nth_error af o) as [[|u]|] eqn:Ao; try discriminate.
+    destruct (nth_error fr o) as [i|] eqn:Fo; [|discriminate].
+    destruct (owned_base _ _ _ _ _ _ _ S Fo Ao) as (Hb & Hi & UU).
+    eapply continue_post; [apply (K _ C)|auto| |exact E].
+    destruct (assign_fresh_spec base st i [] W Hi Hb) as (T & U & L).
+    simpl. split; [eapply trans_weaken; [exact T|intros x [<-|[]]; eauto]|].
+    split; [exists []; rewrite app_nil_r; auto|]. intros _.
+    eapply sat_step with (T := [i]); eauto.
+    + apply length_set_nth.
+    + intros o' i0 Fo' Hn. apply nth_error_set_nth_neq. intro; subst. rewrite Fo in Fo'. inversion Fo'; subst. simpl in Hn; tauto.
+    + intros o' i0 Fo' [<-|[]]. erewrite touched_owned; eauto. simpl. split; auto; intros; discriminate.
+  - (* ECall *)
+    destruct (nth_error tbl f) as [fd|]; [|discriminate].
+    destruct (all_some (map (nth_error af) args)) as [vals|] eqn:AV; [|discriminate].
+    destruct ((length args =? fn_nparams fd) && nodupb args) eqn:Cc; [|discriminate].
+    apply andb_true_iff in Cc. destruct Cc as [Cl Nd].
+    destruct (check fc tbl (fn_body fd) vals) as [vals'|] eqn:CB; [|discriminate].
+    destruct (all_some (map (nth_error fr) args)) as [cfr|] eqn:AF; [|discriminate].
+    rewrite Cl in E.
+    destruct (exec fe tbl (fn_body fd) cfr st ch) as [[[[cfrx st1] ch1] h]|] eqn:EB; [|discriminate].
+    destruct (all_some_map_nth _ _ _ _ AV) as [LV NV]. destruct (all_some_map_nth _ _ _ _ AF) as [LF NF].
+    assert (ND := nodupb_NoDup _ Nd).
+    assert (Sc : sat base vals cfr st).
+    { split; [lia|]. split; [|split].
+      - intros p i Hp. destruct (NF p i Hp) as (o & _ & Ho). eapply SB; eauto.
+      - intros p p' i Hp Hp' Hbi. destruct (NF p i Hp) as (o & Ao & Ho). destruct (NF p' i Hp') as (o' & Ao' & Ho').
+        assert (o = o') by (eapply SD; eauto). subst o'.
+        eapply (proj1 (NoDup_nth_error args) ND); [eapply nth_error_lt; eauto|congruence].
+      - intros p i Hp. destruct (NF p i Hp) as (o & Ao & Ho).
+        destruct (all_some_map_nth2 _ _ _ _ AV p o Ao) as (x & X1 & X2). rewrite X1. rewrite <- X2. apply SO; auto. }
+    pose proof (IH fc _ _ _ _ _ _ _ CB Sc W B EB) as (Tc & (news & EN & FN) & Sc').
+    eapply continue_post; [apply (K _ C)|auto| |exact E].
+    assert (INC : incl cfr fr).
+    { intros x Hx. apply In_nth_error in Hx. destruct Hx as [p Hp]. destruct (NF p x Hp) as (o & _ & Ho). eauto. }
+    simpl. split; [eapply trans_weaken; eauto|]. split; [exists []; rewrite app_nil_r; auto|]. intros ->.
+    specialize (Sc' eq_refl). subst cfrx. destruct Sc' as (SL' & SB' & SD' & SO').
+    eapply sat_step with (T := cfr); eauto.
+    + unfold write_back. rewrite map_length, combine_length, seq_length. lia.
+    + intros o i Fo Hn. rewrite wb_nth. destruct (nth_error af o) eqn:Ao; auto.
+      destruct (pos o args) as [p|] eqn:Pp; auto. exfalso. apply Hn.
+      apply pos_Some in Pp. destruct (all_some_map_nth2 _ _ _ _ AF p o Pp) as (x & X1 & X2).
+      rewrite Fo in X2. inversion X2; subst. eapply nth_error_In; eauto.
+    + intros o i Fo Hin. rewrite wb_nth. pose proof (SO o i Fo) as Oo.
+      destruct (nth_error af o) as [a|] eqn:Ao; [|simpl in Oo; tauto].
+      destruct (pos o args) as [p|] eqn:Pp.
+      * apply pos_Some in Pp. destruct (all_some_map_nth2 _ _ _ _ AF p o Pp) as (x & X1 & X2).
+        rewrite Fo in X2. inversion X2; subst x.
+        assert (X3 : nth_error (cfr ++ news) p = Some i) by (rewrite nth_error_app1; auto; eapply nth_error_lt; eauto).
+        specialize (SO' p i X3). destruct (nth_error vals' p); [exact SO'|simpl in SO'; tauto].
+      * apply pos_None in Pp. apply In_nth_error in Hin. destruct Hin as [p Hp]. destruct (NF p i Hp) as (o1 & A1 & H1).
+        assert (o1 <> o) by (intro; subst; apply Pp; eapply nth_error_In; eauto).
+        destruct a as [|u]; simpl in *; auto. destruct Oo as [Hbi _]. exfalso. apply H. eapply SD; eauto.
+  - (* EBlock *)
+    destruct (check fc tbl body af) as [af1|] eqn:C1; [|discriminate].
+    destruct (le_fr af af1) eqn:Le0.
+    { destruct ch as [|d ch1]. { inversion E; subst. exact HALT. }
+      destruct (iter_block (exec fe tbl body fr) fr (length d) st ch1) as [r0|] eqn:IT; [|discriminate].
+      eapply continue_post; [apply (K _ C)|auto| |exact E].
+      eapply iter_sound with (af2 := af1) (run := exec fe tbl body fr); eauto; try lia. }
+    set (m := meet_fr af af1) in *.
+    destruct (check fc tbl body m) as [af2|] eqn:C2; [|discriminate].
+    destruct (le_fr m af2 && le_fr m af && (length m =? length af)) eqn:Cc; [|discriminate].
+    apply andb_true_iff in Cc. destruct Cc as [Cc Lm]. apply andb_true_iff in Cc. destruct Cc as [Le2 Le1].
+    apply Nat.eqb_eq in Lm.
+    destruct ch as [|d ch1]. { inversion E; subst. exact HALT. }
+    destruct (iter_block (exec fe tbl body fr) fr (length d) st ch1) as [r0|] eqn:IT; [|discriminate].
+    eapply continue_post; [apply (K _ C)|auto| |exact E].
+    assert (Sm : sat base m fr st).
+    { eapply sat_restrict_weaken with (news := []); eauto; try lia. rewrite app_nil_r. exact S. }
+    eapply iter_sound with (af2 := af2) (run := exec fe tbl body fr); eauto; try lia.
+Qed.
+
+(* ------------------------------------------------------------ handle level *)
+Definition hwf (hs : hstate) : Prop :=
+  wf (mst hs) /\
+  forall h i t, nth_error (handles hs) h = Some (Some (i, t)) -> i < length (impls (mst hs)).
+
+Lemma obs_impl_eq : forall st st' j,
+  getI st' j = getI st j ->
+  (forall k, k < NB -> heap st' (bufs (getI st j) k) = heap st (bufs (getI st j) k)) ->
+  obs_impl st' j = obs_impl st j.
+Proof.
+  intros st st' j G H. unfold obs_impl. rewrite G. f_equal.
+  apply map_ext_in. intros k Hk. apply in_seq in Hk. apply H. lia.
+Qed.
+
+Lemma trans_obs : forall base T st st' j, trans base T st st' -> j < base -> j < length (impls st) ->
+  obs_impl st' j = obs_impl st j.
+Proof. intros base T st st' j (_ & _ & _ & P) Hb Hl. destruct (P j Hb Hl). apply obs_impl_eq; auto. Qed.
+
+Local Opaque FUEL.
+
+Lemma entry_sound : forall tbl fd fr st ch fr' st' ch' h,
+  entry_ok tbl fd = true -> fn_entry fd = true -> wf st ->
+  length fr = fn_nparams fd -> (forall o i, nth_error fr o = Some i -> i < length (impls st)) ->
+  exec FUEL tbl (fn_body fd) fr st ch = Some (fr', st', ch', h) ->
+  wf st' /\ length (impls st) <= length (impls st') /\
+  forall j, j < length (impls st) -> obs_impl st' j = obs_impl st j.
+Proof.
+  intros tbl fd fr st ch fr' st' ch' h EO EN W L Bd E. unfold entry_ok in EO. rewrite EN in EO.
+  destruct (check FUEL tbl (fn_body fd) (repeat ABorrowed (fn_nparams fd))) as [af'|] eqn:C; [|discriminate].
+  assert (S : sat (length (impls st)) (repeat ABorrowed (fn_nparams fd)) fr st).
+  { split; [rewrite repeat_length; lia|]. split; auto. split.
+    - intros o o' i H _ Hb. specialize (Bd o i H). lia.
+    - intros o i H. assert (Ho : o < fn_nparams fd) by (rewrite <- L; eapply nth_error_lt; eauto).
+      assert (X : nth_error (repeat ABorrowed (fn_nparams fd)) o = Some ABorrowed) by (apply nth_error_repeat; auto).
+      rewrite X. simpl. eauto. }
+  pose proof (exec_sound tbl _ _ _ _ _ _ _ _ _ _ C S W (le_n _) E) as (T & _ & _).
+  split; [apply T|]. split; [apply T|]. intros j Hj. eapply trans_obs; eauto.
+Qed.
+
+Lemma write3_spec : forall base st n d0 d1 d2,
+  wf st -> n < length (impls st) -> base <= n -> (forall k, k < NB -> uniq st n k) ->
+  let st' := write_buf (write_buf (write_buf st n 0 d0) n 1 d1) n 2 d2 in
+  trans base [] st st' /\ impls st' = impls st /\
+  heap st' (bufs (getI st n) 0) = d0 /\ heap st' (bufs (getI st n) 1) = d1 /\ heap st' (bufs (getI st n) 2) = d2.
+Proof.
+  intros base st n d0 d1 d2 W Hn Hb U. cbv zeta.
+  assert (N01 : bufs (getI st n) 0 <> bufs (getI st n) 1).
+  { intro X. destruct (U 1 ltac:(unfold NB; lia) n 0 Hn ltac:(unfold NB; lia) X). lia. }
+  assert (N02 : bufs (getI st n) 0 <> bufs (getI st n) 2).
+  { intro X. destruct (U 2 ltac:(unfold NB; lia) n 0 Hn ltac:(unfold NB; lia) X). lia. }
+  assert (N12 : bufs (getI st n) 1 <> bufs (getI st n) 2).
+  { intro X. destruct (U 2 ltac:(unfold NB; lia) n 1 Hn ltac:(unfold NB; lia) X). lia. }
+  set (s0 := write_buf st n 0 d0). set (s1 := write_buf s0 n 1 d1).
+  assert (T0 : trans base [] st s0) by exact (write_buf_spec base st n 0 d0 W Hn Hb (U 0 ltac:(unfold NB; lia))).
+  assert (U0 : forall k, k < NB -> uniq s0 n k) by (intros; apply (uniq_same_bufs st); auto).
+  assert (T1 : trans base [] s0 s1) by exact (write_buf_spec base s0 n 1 d1 W Hn Hb (U0 1 ltac:(unfold NB; lia))).
+  assert (U1 : forall k, k < NB -> uniq s1 n k) by (intros; apply (uniq_same_bufs s0); auto).
+  assert (T2 : trans base [] s1 (write_buf s1 n 2 d2)) by exact (write_buf_spec base s1 n 2 d2 W Hn Hb (U1 2 ltac:(unfold NB; lia))).
+  split. { eapply trans_trans; [eapply trans_trans; [exact T0|exact T1|]|exact T2|]; simpl; tauto. }
+  split; [reflexivity|].
+  simpl. unfold upd. change (getI s1 n) with (getI st n). change (getI s0 n) with (getI st n).
+  rewrite !Nat.eqb_refl.
+  apply Nat.eqb_neq in N01. apply Nat.eqb_neq in N02. apply Nat.eqb_neq in N12.
+  rewrite N01, N02, N12. auto.
+Qed.
+
+Lemma force_spec : forall st i t, wf st -> i < length (impls st) -> t <> 0%Z ->
+  let st' := force_impl st i t in
+  wf st' /\ length (impls st') = S (length (impls st)) /\
+  (forall j, j < length (impls st) -> obs_impl st' j = obs_impl st j) /\
+  obs_impl st' (length (impls st)) = xform t (obs_impl st i).
+Proof.
+  intros st i t W Hi Ht. cbv zeta. unfold force_impl.
+  set (n := length (impls st)).
+  destruct (new_copy_spec n st i W Hi) as (T1 & L1). set (st1 := new_copy st i) in *.
+  assert (G1 : getI st1 n = getI st i) by (apply (getI_app_new st st1 (getI st i)); reflexivity).
+  assert (W1 : wf st1) by apply T1.
+  set (d := map (Z.add t) (plain (getI st i))).
+  destruct (write_plain_spec n st1 n d W1 ltac:(lia) (le_n _)) as (T2 & U2 & L2). set (st2 := write_plain st1 n d) in *.
+  assert (G2 : getI st2 n = mkImpl (bufs (getI st i)) d).
+  { unfold st2, write_plain. rewrite getI_set_impl_eq by lia. rewrite G1. reflexivity. }
+  assert (W2 : wf st2) by apply T2.
+  assert (T12 : trans n [i] st st2).
+  { eapply trans_trans; [exact T1|exact T2|]. intros x [<-|[]]. right. unfold n. lia. }
+  assert (XF : Z.eqb t 0 = false) by (apply Z.eqb_neq; auto).
+  destruct (Z.ltb t 0) eqn:Lt.
+  - destruct (make_unique_spec n st2 n W2 ltac:(lia) (le_n _)) as (T3 & L3 & U3 & P3 & H3).
+    set (st3 := make_unique st2 n) in *.
+    assert (W3 : wf st3) by apply T3.
+    destruct (write3_spec n st3 n (rev (heap st3 (bufs (getI st3 n) 0))) (rev (heap st3 (bufs (getI st3 n) 1)))
+                (rev (heap st3 (bufs (getI st3 n) 2))) W3 ltac:(lia) (le_n _) U3) as (T4 & I4 & A0 & A1 & A2).
+    set (st4 := write_buf _ n 2 _) in *.
+    assert (T : trans n [i] st st4).
+    { eapply trans_trans; [eapply trans_trans; [exact T12|exact T3|]|exact T4|].
+      - intros x [<-|[]]. right. unfold n; lia. - intros x []. }
+    split; [apply T|]. split; [rewrite I4; lia|]. split.
+    + intros j Hj. eapply trans_obs; eauto.
+    + unfold obs_impl, xform. rewrite XF, Lt. simpl fst. simpl snd.
+      assert (G4 : getI st4 n = getI st3 n) by (unfold getI; rewrite I4; reflexivity).
+      rewrite G4, P3, G2. simpl plain. f_equal.
+      unfold NB. cbn [seq map]. rewrite A0, A1, A2.
+      rewrite !H3 by (unfold NB; lia). rewrite G2. simpl bufs. reflexivity.
+  - split; [auto|]. split; [lia|]. split.
+    + intros j Hj. eapply trans_obs; eauto.
+    + unfold obs_impl, xform. rewrite XF, Lt, G2. reflexivity.
+Qed.
+
+Lemma all_some_handles : forall hs args fr, hwf hs -> all_some (map (handle_impl hs) args) = Some fr ->
+  length fr = length args /\ forall o i, nth_error fr o = Some i -> i < length (impls (mst hs)).
+Proof.
+  intros hs args fr [W H] A. destruct (all_some_map_nth _ _ _ _ A) as [L N]. split; auto.
+  intros o i Ho. destruct (N o i Ho) as (h & _ & Hh). unfold handle_impl in Hh.
+  destruct (nth_error (handles hs) h) as [[[i0 t]|]|] eqn:E; try discriminate.
+  destruct (Z.eqb t 0); inversion Hh; subst. eapply H; eauto.
+Qed.
+
+Lemma hstep_sound : forall tbl, discipline_ok tbl = true ->
+  forall hs op hs', hwf hs -> hstep tbl hs op = Some hs' ->
+  hwf hs' /\
+  (forall h v, obs_handle hs h = Some v -> op <> HDrop h -> obs_handle hs' h = Some v) /\
+  (forall h, op = HCopy h -> obs_handle hs' (length (handles hs)) = obs_handle hs h).
+Proof.
+  intros tbl D hs op hs' HW E. pose proof HW as [W HB].
+  destruct op as [f args ch|h|h t|h|h]; cbn [hstep] in E.
+  - (* HRun *)
+    destruct (nth_error tbl f) as [fd|] eqn:Ef; [|discriminate].
+    destruct (all_some (map (handle_impl hs) args)) as [fr|] eqn:A; [|discriminate].
+    destruct (fn_entry fd && (length args =? fn_nparams fd)) eqn:C; [|discriminate].
+    apply andb_true_iff in C. destruct C as [En Ln]. apply Nat.eqb_eq in Ln.
+    destruct (exec FUEL tbl (fn_body fd) fr (mst hs) ch) as [[[[fr' st'] ch'] hh]|] eqn:X; [|discriminate].
+    inversion E; subst hs'; clear E.
+    destruct (all_some_handles hs args fr HW A) as [Lf Bf].
+    assert (EO : entry_ok tbl fd = true).
+    { unfold discipline_ok in D. rewrite forallb_forall in D. apply D. eapply nth_error_In; eauto. }
+    destruct (entry_sound tbl fd fr (mst hs) ch fr' st' ch' hh EO En W ltac:(lia) Bf X) as (W' & L' & O').
+    split; [|split].
+    + split; auto. simpl. intros h i t Hh. destruct (Nat.lt_ge_cases h (length (handles hs))).
+      * rewrite nth_error_app1 in Hh by auto. specialize (HB _ _ _ Hh). lia.
+      * rewrite nth_error_app2 in Hh by auto. rewrite nth_error_map in Hh.
+        destruct (nth_error (seq _ _) (h - length (handles hs))) eqn:Es; simpl in Hh; [|discriminate].
+        inversion Hh; subst. apply nth_error_In in Es. apply in_seq in Es. lia.
+    + intros h v Ho _. unfold obs_handle in *. simpl.
+      destruct (nth_error (handles hs) h) as [[[i t]|]|] eqn:Eh; try discriminate.
+      rewrite nth_error_app1 by (eapply nth_error_lt; eauto). rewrite Eh.
+      rewrite O'; auto. eapply HB; eauto.
+    + intros; discriminate.
+  - (* HCopy *)
+    destruct (nth_error (handles hs) h) as [[v|]|] eqn:Eh; try discriminate. inversion E; subst hs'; clear E.
+    split; [|split].
+    + split; auto. simpl. intros h1 i t Hh. destruct (Nat.lt_ge_cases h1 (length (handles hs))).
+      * rewrite nth_error_app1 in Hh by auto. eapply HB; eauto.
+      * rewrite nth_error_app2 in Hh by auto. destruct (h1 - length (handles hs)) as [|[|]]; simpl in Hh; try discriminate.
+        inversion Hh; subst. eapply HB; eauto.
+    + intros h1 v1 Ho _. unfold obs_handle in *. simpl.
+      destruct (nth_error (handles hs) h1) eqn:E1; try discriminate.
+      rewrite nth_error_app1 by (eapply nth_error_lt; eauto). rewrite E1. auto.
+    + intros h1 X. inversion X; subst h1. unfold obs_handle. simpl.
+      rewrite nth_error_app2 by auto. rewrite Nat.sub_diag. simpl. rewrite Eh. reflexivity.
+  - (* HLazy *)
+    destruct (nth_error (handles hs) h) as [[[i t0]|]|] eqn:Eh; try discriminate.
+    destruct (Z.eqb t0 0); [|discriminate]. inversion E; subst hs'; clear E.
+    split; [|split].
+    + split; auto. simpl. intros h1 i1 t1 Hh. destruct (Nat.lt_ge_cases h1 (length (handles hs))).
+      * rewrite nth_error_app1 in Hh by auto. eapply HB; eauto.
+      * rewrite nth_error_app2 in Hh by auto. destruct (h1 - length (handles hs)) as [|[|]]; simpl in Hh; try discriminate.
+        inversion Hh; subst. eapply HB; eauto.
+    + intros h1 v1 Ho _. unfold obs_handle in *. simpl.
+      destruct (nth_error (handles hs) h1) eqn:E1; try discriminate.
+      rewrite nth_error_app1 by (eapply nth_error_lt; eauto). rewrite E1. auto.
+    + intros; discriminate.
+  - (* HForce *)
+    destruct (nth_error (handles hs) h) as [[[i t]|]|] eqn:Eh; try discriminate.
+    destruct (Z.eqb t 0) eqn:Et.
+    { inversion E; subst hs'. split; auto. split; auto. intros; discriminate. }
+    inversion E; subst hs'; clear E. apply Z.eqb_neq in Et.
+    assert (Hi := HB _ _ _ Eh).
+    destruct (force_spec (mst hs) i t W Hi Et) as (W' & L' & O' & N').
+    split; [|split].
+    + split; auto. simpl. intros h1 i1 t1 Hh. destruct (Nat.eq_dec h h1) as [<-|Nh].
+      * rewrite nth_error_set_nth_eq in Hh by (eapply nth_error_lt; eauto). inversion Hh; subst. lia.
+      * rewrite nth_error_set_nth_neq in Hh by auto. specialize (HB _ _ _ Hh). lia.
+    + intros h1 v1 Ho _. unfold obs_handle in *. simpl.
+      destruct (Nat.eq_dec h h1) as [<-|Nh].
+      * rewrite nth_error_set_nth_eq by (eapply nth_error_lt; eauto). rewrite Eh in Ho.
+        rewrite N'. unfold xform at 1. simpl. auto.
+      * rewrite nth_error_set_nth_neq by auto.
+        destruct (nth_error (handles hs) h1) as [[[i1 t1]|]|] eqn:E1; try discriminate.
+        rewrite O'; auto. eapply HB; eauto.
+    + intros; discriminate.
+  - (* HDrop *)
+    destruct (nth_error (handles hs) h) as [[v|]|] eqn:Eh; try discriminate. inversion E; subst hs'; clear E.
+    split; [|split].
+    + split; auto. simpl. intros h1 i1 t1 Hh. destruct (Nat.eq_dec h h1) as [<-|Nh].
+      * rewrite nth_error_set_nth_eq in Hh by (eapply nth_error_lt; eauto). discriminate.
+      * rewrite nth_error_set_nth_neq in Hh by auto. eapply HB; eauto.
+    + intros h1 v1 Ho Hd. unfold obs_handle in *. simpl.
+      rewrite nth_error_set_nth_neq by (intro; subst; apply Hd; reflexivity). auto.
+    + intros; discriminate.
+Qed.
+
+Lemma hwf_h0 : hwf h0.
+Proof. split; [intros j k H; simpl in H; lia|]. intros h i t H. destruct h; discriminate. Qed.
+
+Lemma hrun_hwf : forall tbl, discipline_ok tbl = true -> forall ops hs hs', hwf hs -> hrun tbl hs ops = Some hs' -> hwf hs'.
+Proof.
+  intros tbl D. induction ops as [|op ops IH]; intros hs hs' HW R; simpl in R.
+  - inversion R; subst; auto.
+  - destruct (hstep tbl hs op) as [hs1|] eqn:E; [|discriminate].
+    eapply IH; [|exact R]. eapply hstep_sound; eauto.
+Qed.
+
+Lemma discipline_sound_lemma : forall tbl, discipline_ok tbl = true ->
+  forall ops hs op hs', hrun tbl h0 ops = Some hs -> hstep tbl hs op = Some hs' ->
+  (forall h v, obs_handle hs h = Some v -> op <> HDrop h -> obs_handle hs' h = Some v) /\
+  (forall h, op = HCopy h -> obs_handle hs' (length (handles hs)) = obs_handle hs h).
+Proof.
+  intros tbl D ops hs op hs' R E.
+  assert (HW : hwf hs) by (eapply hrun_hwf; eauto; apply hwf_h0).
+  destruct (hstep_sound tbl D hs op hs' HW E) as (_ & A & B). split; auto.
+Qed.
